@@ -78,7 +78,13 @@ func parseRecord(r []byte) (Record, error) {
 			if len(body) < 8 {
 				return res, ErrCorrupted
 			}
-			res = append(res, math.Float64frombits(binary.BigEndian.Uint64(body[:8])))
+			if f := math.Float64frombits(binary.BigEndian.Uint64(body[:8])); math.IsNaN(f) {
+				// SQLite has no NaN: it stores NULL instead, and reads a
+				// NaN bit pattern as NULL
+				res = append(res, nil)
+			} else {
+				res = append(res, f)
+			}
 			body = body[8:]
 		case 8:
 			// Value is the integer 0. (Only available for schema format 4 and higher.)
